@@ -636,7 +636,6 @@ keyword(struct token *tok)
 		mid = (low + high) / 2;
 		cmp = strcmp(tok->lit, keywords[mid].name);
 		if (cmp == 0) {
-			free(tok->lit);
 			tok->kind = keywords[mid].value;
 			tok->lit = NULL;
 			break;
